@@ -16,7 +16,7 @@
 (* One named action per API operation: Start, Stop, Clear, Redraw (a new    *)
 (* canvas), RedrawSame (the canvas object drawn last), RedrawBad (canvas    *)
 (* whose row count differs from the size given: urwid raises ValueError),   *)
-(* NewWidget, DropWidget, Invalidate.                                       *)
+(* NewWidget, DropWidget, (invalidation of a widget = argument of Redraw).  *)
 (*                                                                         *)
 (* This is the INTENDED design: every widget whose view set changed is      *)
 (* deleted by z-index and gets ONE disguise change, a non-composite image   *)
@@ -29,7 +29,8 @@ CONSTANTS Ident,      \* "kitty" | "konsole" | "other"
           Style3,     \* style of widget slot 3: "block" | "iterm2" | "kitty"
           Bits,       \* z-index space (see AllocOutcomes)
           Fams,       \* layout families explored, subset of {"P","S","O","L","F","T","I"}
-          WithBad     \* explore RedrawBad
+          WithBad,    \* explore RedrawBad
+          Dyn         \* explore NewWidget / DropWidget (otherwise all three widgets live from the start)
 
 ScrW == 8
 ScrH == 5
@@ -39,8 +40,8 @@ NatW(w) == IF w = 2 THEN 2 ELSE 4
 NatH(w) == IF w = 1 THEN 3 ELSE 2
 MaxStrip == 3
 
-VARIABLES T, cv, cdis, wdis, scr, started, last, ulast, same, wdt, nxt, free, ok, out
-vars == <<T, cv, cdis, wdis, scr, started, last, ulast, same, wdt, nxt, free, ok, out>>
+VARIABLES T, cv, cdis, wdis, scr, started, last, ulast, same, wdt, nxt, free, ok, taint, out
+vars == <<T, cv, cdis, wdis, scr, started, last, ulast, same, wdt, nxt, free, ok, taint, out>>
 
 (* ------------------------------------------------------------- layouts *)
 
@@ -103,17 +104,19 @@ AllParams ==
 \* natural sizes only: enough for Sem / WF (z, gen do not matter there)
 WD0 == [w \in Slots |-> [style |-> StyleOf(w), nw |-> NatW(w), nh |-> NatH(w), z |-> 0, gen |-> 0]]
 
-Params == {p \in AllParams : p.f \in Fams /\ WF(WD0, Lay(p), ScrW, ScrH)}
+Params == TLCEval({p \in AllParams : p.f \in Fams /\ WF(WD0, Lay(p), ScrW, ScrH)})
 
 \* constant-level: evaluated once by TLC
-PiecesOf == [p \in Params |-> Sem(WD0, Lay(p), 0, 0, ScrW, ScrH)]
-UsesOf == [p \in Params |-> WidgetsOf(Lay(p))]
+PiecesOf == TLCEval([p \in Params |-> Sem(WD0, Lay(p), 0, 0, ScrW, ScrH)])
+UsesOf == TLCEval([p \in Params |-> WidgetsOf(Lay(p))])
 AllTile == \A p \in Params : Tiles(PiecesOf[p], ScrW, ScrH)
 ASSUME AllTile
+RowPsOf == TLCEval([p \in Params |-> [r \in 1..ScrH |-> RowPieces(PiecesOf[p], r - 1, 0, ScrW)]])
+TopLeafOf == TLCEval([p \in Params |-> TopLeaf(Lay(p))])
 
 (* ----------------------------------------------- the model's gfx table *)
 
-ZSeq == [i \in 1..ZCapacity(Bits) |-> IF i % 2 = 1 THEN (i + 1) \div 2 ELSE -(i \div 2)]
+ZSeq == TLCEval([i \in 1..ZCapacity(Bits) |-> IF i % 2 = 1 THEN (i + 1) \div 2 ELSE -(i \div 2)])
 NZ == ZCapacity(Bits)
 ZIdx(z) == IF z > 0 THEN 2 * z - 1 ELSE 2 * (-z)
 
@@ -149,7 +152,7 @@ GfxRec(x) ==
     IN [KRec("", "", 0, -1) EXCEPT !.proto = "iterm2", !.inline = 1, !.wcells = NatW(w), !.hcells = 1,
                                     !.dnmc = 1, !.wid = w, !.strip = strip]
 
-GFX == [i \in 1..(NGfx + 1) |-> GfxRec(i - 1)]
+GFX == TLCEval([i \in 1..(NGfx + 1) |-> GfxRec(i - 1)])
 
 Tok(k, n, m, x) == [k |-> k, n |-> n, m |-> m, g |-> "", p |-> <<>>, x |-> x]
 KTok(x) == Tok("kitty", -1, -1, x)
@@ -158,7 +161,12 @@ SyncEnd == Tok("decrst", 2026, -1, 0)
 
 (* -------------------------------------------------------------- helpers *)
 
-WD == [w \in Slots |-> [style |-> StyleOf(w), nw |-> NatW(w), nh |-> NatH(w), z |-> wdt[w].z, gen |-> wdt[w].gen]]
+\* canvas generation: only "the widget was invalidated since the canvas on screen was rendered"
+\* matters, so stored views always carry gen 0 and a re-rendered widget's new views carry gen 1
+WDg(inv) == [w \in Slots |-> [style |-> StyleOf(w), nw |-> NatW(w), nh |-> NatH(w), z |-> wdt[w].z,
+                              gen |-> IF w = inv THEN 1 ELSE 0]]
+WD == WDg(0)
+ResetGen(views) == {[v EXCEPT !.gen = 0] : v \in views}
 Dis == [c |-> cdis, w |-> wdis]
 
 RECURSIVE SetToSeq(_)
@@ -184,11 +192,14 @@ SegToks(p, y) ==
 RECURSIVE Concat(_, _)
 Concat(ss, i) == IF i > Len(ss) THEN <<>> ELSE ss[i] \o Concat(ss, i + 1)
 
-RowToks(P, y) == LET ps == RowPieces(P, y, 0, ScrW) IN Concat([i \in DOMAIN ps |-> SegToks(ps[i], y)], 1)
+RowToks(p, r) == LET ps == RowPsOf[p][r] IN Concat([i \in DOMAIN ps |-> SegToks(ps[i], r - 1)], 1)
+
+SigOf(p, dis) ==
+  [r \in 1..ScrH |-> LET ps == RowPsOf[p][r] IN [i \in DOMAIN ps |-> SegSig(Ident, WD, dis, ps[i], r - 1)]]
 
 \* rows urwid draws: all without a cache, otherwise those whose segment list changed
-DrawToks(P, sig, cache) ==
-  Concat([r \in 1..ScrH |-> IF cache = <<>> \/ cache[r] # sig[r] THEN RowToks(P, r - 1) ELSE <<>>], 1)
+DrawToks(p, sig, cache) ==
+  Concat([r \in 1..ScrH |-> IF cache = <<>> \/ cache[r] # sig[r] THEN RowToks(p, r) ELSE <<>>], 1)
 
 Usable(p) == \A w \in UsesOf[p] : wdt[w].alive /\ ~wdt[w].dropped
 
@@ -213,9 +224,13 @@ Init ==
   /\ cv = {} /\ cdis = 0 /\ wdis = [w \in Slots |-> 0]
   /\ scr = <<>> /\ started = FALSE
   /\ last = NoneP /\ ulast = NoneP /\ same = FALSE
-  /\ wdt = [w \in Slots |-> [alive |-> FALSE, dropped |-> FALSE, z |-> 0, gen |-> 0]]
-  /\ nxt = 1 /\ free = {}
-  /\ ok = FALSE
+  /\ IF Dyn THEN /\ wdt = [w \in Slots |-> [alive |-> FALSE, dropped |-> FALSE, z |-> 0]]
+                 /\ nxt = 1
+            ELSE /\ wdt = [w \in Slots |-> [alive |-> TRUE, dropped |-> FALSE,
+                                           z |-> IF StyleOf(w) = "kitty" THEN ZSeq[w] ELSE 0]]
+                 /\ nxt = IF Style3 = "kitty" THEN -2 ELSE 2
+  /\ free = {}
+  /\ ok = FALSE /\ taint = FALSE
   /\ out = [op |-> "init", arg |-> NoneP, toks |-> <<>>, res |-> ""]
 
 ClearImages(n) == IF Supported(Ident) THEN [i \in 1..n |-> KTok(XDelAll)] ELSE <<>>
@@ -228,7 +243,7 @@ Start ==
   /\ cdis' = BumpN(cdis, 1)
   /\ ok' = FALSE
   /\ out' = [op |-> "start", arg |-> NoneP, toks |-> ClearImages(1), res |-> ""]
-  /\ UNCHANGED <<cv, wdis, scr, last, ulast, same, wdt, nxt, free>>
+  /\ UNCHANGED <<cv, wdis, scr, last, ulast, same, wdt, nxt, free, taint>>
 
 Stop ==
   /\ started
@@ -238,6 +253,7 @@ Stop ==
   /\ scr' = <<>>
   /\ ok' = FALSE
   /\ out' = [op |-> "stop", arg |-> NoneP, toks |-> ClearImages(2), res |-> ""]
+  /\ taint' = FALSE
   /\ UNCHANGED <<cv, wdis, last, ulast, same, wdt, nxt, free>>
 
 Clear ==
@@ -247,82 +263,82 @@ Clear ==
   /\ scr' = <<>>
   /\ ok' = FALSE
   /\ out' = [op |-> "clear", arg |-> NoneP, toks |-> ClearImages(1), res |-> ""]
+  /\ taint' = FALSE
   /\ UNCHANGED <<cv, wdis, started, last, ulast, same, wdt, nxt, free>>
 
-DoRedraw(p, bad) ==
+DoRedraw(p, bad, inv) ==
   LET P == PiecesOf[p]
-      d == LibDiff(Ident, WD, cv, P, TopLeaf(Lay(p)))
+      d == LibDiff(Ident, WDg(inv), cv, P, TopLeafOf[p])
       cdis1 == IF d.delall THEN Bump(cdis) ELSE cdis
       wdis1 == [w \in Slots |-> IF w \in d.delw THEN Bump(wdis[w]) ELSE wdis[w]]
-      sig == ScreenSig(Ident, WD, [c |-> cdis1, w |-> wdis1], P, ScrW, ScrH)
-      toks == <<SyncBegin>> \o DelToks(d) \o (IF bad THEN <<>> ELSE DrawToks(P, sig, scr)) \o <<SyncEnd>>
+      sig == SigOf(p, [c |-> cdis1, w |-> wdis1])
+      toks == <<SyncBegin>> \o DelToks(d) \o (IF bad THEN <<>> ELSE DrawToks(p, sig, scr)) \o <<SyncEnd>>
       ulast1 == IF bad THEN ulast ELSE p
+      cv1 == ResetGen(d.cviews)
   IN /\ T' = Fold(T, toks, GFX, 1)
-     /\ cv' = d.cviews /\ cdis' = cdis1 /\ wdis' = wdis1
+     /\ cv' = cv1 /\ cdis' = cdis1 /\ wdis' = wdis1
      /\ scr' = IF bad THEN scr ELSE sig
      /\ last' = p /\ ulast' = ulast1 /\ same' = ~bad
-     /\ wdt' = Reaped(wdt, p, ulast1, d.cviews)
-     /\ free' = free \cup Freed(wdt, p, ulast1, d.cviews)
-     /\ ok' = ~bad
-     /\ out' = [op |-> IF bad THEN "bad" ELSE "redraw", arg |-> p, toks |-> toks,
+     /\ wdt' = Reaped(wdt, p, ulast1, cv1)
+     /\ free' = free \cup Freed(wdt, p, ulast1, cv1)
+     /\ taint' = (taint \/ bad)
+     /\ ok' = (~bad /\ ~taint)
+     /\ out' = [op |-> IF bad THEN "bad" ELSE "redraw", arg |-> [p EXCEPT !.d = p.d + 10 * inv], toks |-> toks,
                 res |-> IF bad THEN "ValueError" ELSE ""]
      /\ UNCHANGED <<started, nxt>>
 
-Redraw == \E p \in Params : started /\ Usable(p) /\ DoRedraw(p, FALSE)
+\* inv = 0: widgets keep their cached canvases; inv = w: widget w was invalidated before rendering
+Redraw == \E p \in Params : started /\ Usable(p) /\ \E inv \in {0} \cup UsesOf[p] : DoRedraw(p, FALSE, inv)
 
-RedrawBad == WithBad /\ \E p \in Params : started /\ Usable(p) /\ DoRedraw(p, TRUE)
+\* A draw_screen call that fails inside urwid (canvas rows # size given: ValueError) still ran the
+\* cviews diff and its deletions.  Two such failures in a row can bring a widget's disguise back to
+\* the value urwid cached (found by TLC), so the exactness claim is suspended (taint) until the
+\* next clear()/stop() drops urwid's line cache; bracketing is required regardless.
+RedrawBad == WithBad /\ \E p \in Params : started /\ Usable(p) /\ DoRedraw(p, TRUE, 0)
 
 \* draw_screen with the very canvas object passed last: no cviews diff; urwid returns early if
 \* its cache belongs to that canvas, otherwise draws the rows that differ from its cache
 RedrawSame ==
   /\ started /\ last # NoneP
-  /\ LET P == PiecesOf[last]
-         quick == scr # <<>> /\ same
-         sig == ScreenSig(Ident, WD, Dis, P, ScrW, ScrH)
-         toks == <<SyncBegin>> \o (IF quick THEN <<>> ELSE DrawToks(P, sig, scr)) \o <<SyncEnd>>
+  /\ LET quick == scr # <<>> /\ same
+         sig == SigOf(last, Dis)
+         toks == <<SyncBegin>> \o (IF quick THEN <<>> ELSE DrawToks(last, sig, scr)) \o <<SyncEnd>>
      IN /\ T' = Fold(T, toks, GFX, 1)
         /\ scr' = IF quick THEN scr ELSE sig
         /\ ulast' = last /\ same' = TRUE
         /\ wdt' = Reaped(wdt, last, last, cv)
         /\ free' = free \cup Freed(wdt, last, last, cv)
-        /\ ok' = IF quick THEN ok ELSE TRUE
+        /\ ok' = IF quick THEN ok ELSE ~taint
         /\ out' = [op |-> "same", arg |-> last, toks |-> toks, res |-> ""]
-  /\ UNCHANGED <<cv, cdis, wdis, started, last, nxt>>
+  /\ UNCHANGED <<cv, cdis, wdis, started, last, nxt, taint>>
 
 NewWidget ==
-  \E w \in Slots :
+  Dyn /\ \E w \in Slots :
     /\ ~wdt[w].alive
     /\ IF StyleOf(w) # "kitty"
-         THEN /\ wdt' = [wdt EXCEPT ![w] = [alive |-> TRUE, dropped |-> FALSE, z |-> 0, gen |-> 0]]
+         THEN /\ wdt' = [wdt EXCEPT ![w] = [alive |-> TRUE, dropped |-> FALSE, z |-> 0]]
               /\ out' = [op |-> "new", arg |-> Par("w", w, 0, 0, 0), toks |-> <<>>, res |-> ""]
               /\ UNCHANGED <<nxt, free>>
          ELSE IF AllocOutcomes(Bits, nxt, free) = {}
            THEN /\ out' = [op |-> "new", arg |-> Par("w", w, 0, 0, 0), toks |-> <<>>, res |-> "UrwidImageError"]
                 /\ UNCHANGED <<wdt, nxt, free>>
            ELSE \E o \in AllocOutcomes(Bits, nxt, free) :
-                  /\ wdt' = [wdt EXCEPT ![w] = [alive |-> TRUE, dropped |-> FALSE, z |-> o.z, gen |-> 0]]
+                  /\ wdt' = [wdt EXCEPT ![w] = [alive |-> TRUE, dropped |-> FALSE, z |-> o.z]]
                   /\ nxt' = o.next /\ free' = o.free
                   /\ out' = [op |-> "new", arg |-> Par("w", w, o.z, 0, 0), toks |-> <<>>, res |-> ""]
     /\ wdis' = [wdis EXCEPT ![w] = 0]
-    /\ UNCHANGED <<T, cv, cdis, scr, started, last, ulast, same, ok>>
+    /\ UNCHANGED <<T, cv, cdis, scr, started, last, ulast, same, ok, taint>>
 
 DropWidget ==
-  \E w \in Slots :
+  Dyn /\ \E w \in Slots :
     /\ wdt[w].alive /\ ~wdt[w].dropped
     /\ LET wt == [wdt EXCEPT ![w].dropped = TRUE] IN
          /\ wdt' = Reaped(wt, last, ulast, cv)
          /\ free' = free \cup Freed(wt, last, ulast, cv)
     /\ out' = [op |-> "drop", arg |-> Par("w", w, 0, 0, 0), toks |-> <<>>, res |-> ""]
-    /\ UNCHANGED <<T, cv, cdis, wdis, scr, started, last, ulast, same, nxt, ok>>
+    /\ UNCHANGED <<T, cv, cdis, wdis, scr, started, last, ulast, same, nxt, ok, taint>>
 
-Invalidate ==
-  \E w \in Slots :
-    /\ wdt[w].alive /\ ~wdt[w].dropped
-    /\ wdt' = [wdt EXCEPT ![w].gen = 1 - @]
-    /\ out' = [op |-> "inval", arg |-> Par("w", w, 0, 0, 0), toks |-> <<>>, res |-> ""]
-    /\ UNCHANGED <<T, cv, cdis, wdis, scr, started, last, ulast, same, nxt, free, ok>>
-
-Next == Start \/ Stop \/ Clear \/ Redraw \/ RedrawSame \/ RedrawBad \/ NewWidget \/ DropWidget \/ Invalidate
+Next == Start \/ Stop \/ Clear \/ Redraw \/ RedrawSame \/ RedrawBad \/ NewWidget \/ DropWidget
 Spec == Init /\ [][Next]_vars
 
 (* ---------------------------------------------------------- properties *)
@@ -351,7 +367,7 @@ NoOrphanZ == \A i \in DOMAIN T.pl : T.pl[i].proto = "kitty" => \E w \in LiveKitt
 (* ------------------------------------------------------------ TLC plumbing *)
 
 PlSet == Shown(T, GFX)
-View == <<PlSet, cv, cdis, wdis, scr, started, last, ulast, same, wdt, nxt, free, ok>>
+View == <<PlSet, cv, cdis, wdis, scr, started, last, ulast, same, wdt, nxt, free, ok, taint>>
 
 ObsS == [pl |-> PlSet, cv |-> cv, started |-> started, last |-> last, ulast |-> ulast, same |-> same,
          wdt |-> wdt, nxt |-> nxt, free |-> free, cdis |-> cdis, wdis |-> wdis, scr |-> (scr # <<>>)]
